@@ -75,3 +75,37 @@ Definition run_machine (fuel d : nat) (p : program) (db : list (str * nat * list
           end
       end
   end.
+
+(* a concrete instance of machine_refines_irsem, evaluated *)
+Definition ex_mem : list clause :=
+  let V x := SVar (d x) in let A x := SAtom (d x) in
+  let cons h t := SFun (d ".") [h; t] in
+  let lst := fix lst (l : list sterm) := match l with [] => A "[]" | x :: r => cons x (lst r) end in
+  [ {| c_name := d "mem"; c_args := [V "X"; cons (V "X") (V "T")]; c_body := BTrue |};
+    {| c_name := d "mem"; c_args := [V "X"; cons (V "H") (V "T")]; c_body := BCall (d "mem") [V "X"; V "T"] |};
+    {| c_name := d "r"; c_args := [V "X"; V "L"];
+       c_body := BAnd (BCall (d "mem") [V "X"; lst [A "a"; A "b"; A "c"]])
+                  (BAnd (BCall (d "findall") [V "Y"; SFun (d "mem") [V "Y"; lst [V "X"; A "d"]]; V "L"])
+                        (BNot (BCall (d "=") [V "X"; A "b"]))) |} ].
+
+Definition obs_eqb (a b : obs) : bool := str_eqb (show_obs_str a) (show_obs_str b).
+
+Definition refine_example : bool :=
+  match compile_program ex_mem with
+  | None => false
+  | Some ir =>
+      let big := query 20 ir (d "r") [TVar 0; TVar 1] (mkst [] 2) in
+      match m_nexts ir (fun _ _ => []) (fun _ _ => None) 2000 20 5 [] (m_query ir (fun _ _ => []) (fun _ _ => None) (d "r") [TVar 0; TVar 1] 2) with
+      | Some (hf, IDone, ys, RStop) =>
+          Nat.eqb (length ys) 2 && Nat.eqb (length hf) 0 && negb (snd big) &&
+          Nat.eqb (length (fst big)) 2 &&
+          forallb (fun p => obs_eqb (OL (map (fun b => OL [onat (fst b); term_obs (snd b)]) (fst p)))
+                                    (OL (map (fun b => OL [onat (fst b); term_obs (snd b)]) (sto (snd p)))))
+                  (combine ys (fst big)) &&
+          match ys with
+          | h1 :: h2 :: _ => obs_eqb (term_obs (dfast h1 (TVar 0))) (term_obs (TAtom (d "a"))) &&
+                             obs_eqb (term_obs (dfast h2 (TVar 0))) (term_obs (TAtom (d "c")))
+          | _ => false end
+      | _ => false
+      end
+  end.
